@@ -687,14 +687,17 @@ impl Subscription {
                 IterDirection::Forward,
             )
             .await?;
-        while let Some(commits) = iter.next_batch(DEFAULT_BATCH_SIZE).await? {
+        'iter: while let Some(commits) = iter.next_batch(DEFAULT_BATCH_SIZE).await? {
             for commit in commits {
                 let Some(first_partition_sequence) = commit.first_partition_sequence() else {
                     continue;
                 };
 
+                // Stop the whole history read at the first unconfirmed commit: if only this
+                // batch were abandoned and the watermark advanced before the next one, later
+                // versions would be delivered and the rest of this batch skipped for good
                 if !watermark.can_read(first_partition_sequence) {
-                    break;
+                    break 'iter;
                 }
 
                 for event in commit {
